@@ -59,8 +59,12 @@ def join_first_line(kind, prio, ws) -> str:
 
 @st.composite
 def step(draw, allow_page_ops=True, allow_paths=True):
-    k = draw(st.integers(0, 39))
+    k = draw(st.integers(0, 42 if allow_page_ops else 39))
     sel = {"p": draw(st.integers(0, 50)), "n": draw(st.integers(0, 50))}
+    if k == 40 or k == 41:
+        return {"op": "break_page", **sel}
+    if k == 42:
+        return {"op": "fix_pages"}
     if k < 4:
         return {"op": "append_word", **sel, "w": draw(st.sampled_from(WORDS))}
     if k < 6:
@@ -126,10 +130,44 @@ class Workdir:
         self.fresh += 1
         return day[2:4] + day[5:7] + day[8:10] + "#" + "y" + P._SUFFIX_ALPHABET[self.fresh % 51] + P._SUFFIX_ALPHABET[(self.fresh // 51) % 51]
 
+    BROKEN_LINE = "- [[unclosed link of a page being edited"
+
+    def broken_pages(self) -> list:
+        return [p for p in self.pages() if self.BROKEN_LINE in self.read(p)]
+
+    def fix_pages(self) -> list:
+        fixed = []
+        for p in self.broken_pages():
+            lines = [ln for ln in self.read(p) if ln != self.BROKEN_LINE]
+            (self.zdir / p).write_text("\n".join(lines))
+            fixed.append(p)
+        return fixed
+
     def apply(self, st_: dict, day: str):
         """Apply a file-system step.  Returns a short description or None if not applicable."""
         op = st_["op"]
         pages = self.pages()
+        if op == "fix_pages":
+            f = self.fix_pages()
+            return f"fix_pages {f}" if f else None
+        if op == "break_page":
+            if not pages:
+                return None
+            rel = pages[st_["p"] % len(pages)]
+            if rel in self.broken_pages():
+                return None
+            lines = self.read(rel)
+            while lines and lines[-1] == "":
+                lines.pop()
+            last = lines[-1] if lines else ""
+            if last.startswith("# ") or last == "#":
+                lines.append("")
+            lines += [self.BROKEN_LINE, ""]
+            (self.zdir / rel).write_text("\n".join(lines))
+            return f"break_page {rel}"
+        # edits of a page that is currently broken are applied to its valid part only if the
+        # result (without the broken line) stays valid: keep it simple and leave such pages alone
+        pages = [p for p in pages if p not in self.broken_pages()] or pages
         if op == "add_page":
             self.fresh += 1
             rel = ("sub/" if st_.get("sub") else "") + f"new{self.fresh}.zo"
